@@ -343,6 +343,98 @@ func checkC20Reuse(c C20Reuse, st *stats.Collector) error {
 	return nil
 }
 
+// ---- writer memory: what a Writer keeps may grow with the chunks it has written (their index entries go into
+// the summary), not with the messages
+
+type C20Writer struct {
+	Messages  int
+	ChunkSize int64
+	Channels  int
+	Payload   int
+	Comp      string
+	SkipMI    bool // SkipMessageIndexing
+	SkipCI    bool // SkipChunkIndex
+	SkipStats bool
+	Unchunked bool
+	Seed      uint64
+}
+
+func genC20Writer(t *rapid.T) C20Writer {
+	return C20Writer{Messages: rapid.IntRange(300_000, 800_000).Draw(t, "messages"), ChunkSize: rapid.SampledFrom([]int64{64 << 10, 256 << 10, 1 << 20}).Draw(t, "chunk-size"),
+		Channels: rapid.IntRange(1, 8).Draw(t, "channels"), Payload: rapid.SampledFrom([]int{0, 4, 16}).Draw(t, "payload"), Comp: rapid.SampledFrom([]string{"", "zstd", "lz4"}).Draw(t, "comp"),
+		SkipMI: rapid.Bool().Draw(t, "skip-message-indexing"), SkipCI: rapid.IntRange(0, 3).Draw(t, "skip-chunk-index") == 0, SkipStats: rapid.IntRange(0, 3).Draw(t, "skip-statistics") == 0,
+		Unchunked: rapid.IntRange(0, 5).Draw(t, "unchunked") == 0, Seed: rapid.Uint64().Draw(t, "seed")}
+}
+
+type countSink struct{ n int64 }
+
+func (s *countSink) Write(p []byte) (int, error) { s.n += int64(len(p)); return len(p), nil }
+
+func checkC20Writer(c C20Writer, st *stats.Collector) error {
+	sink := &countSink{}
+	w, err := mcap.NewWriter(sink, &mcap.WriterOptions{Chunked: !c.Unchunked, ChunkSize: c.ChunkSize, Compression: mcap.CompressionFormat(c.Comp),
+		SkipMessageIndexing: c.SkipMI, SkipChunkIndex: c.SkipCI, SkipStatistics: c.SkipStats, IncludeCRC: c.Seed&1 == 0})
+	if err != nil {
+		return pk.Failf("writer-open", "NewWriter: %v", err)
+	}
+	if err := w.WriteHeader(&mcap.Header{}); err != nil {
+		return pk.Failf("writer-open", "WriteHeader: %v", err)
+	}
+	for ch := 0; ch < c.Channels; ch++ {
+		if err := w.WriteChannel(&mcap.Channel{ID: uint16(ch), Topic: fmt.Sprintf("/t%d", ch)}); err != nil {
+			return pk.Failf("writer-open", "WriteChannel: %v", err)
+		}
+	}
+	payload := make([]byte, c.Payload)
+	msg := &mcap.Message{Data: payload}
+	var base uint64
+	var baseBytes int64
+	x := c.Seed | 1
+	for i := 0; i < c.Messages; i++ {
+		x = x*6364136223846793005 + 1442695040888963407
+		msg.ChannelID = uint16((x >> 33) % uint64(c.Channels))
+		msg.Sequence = uint32(i)
+		msg.LogTime = uint64(i)
+		msg.PublishTime = uint64(i)
+		if err := w.WriteMessage(msg); err != nil {
+			return pk.Failf("writer-error", "WriteMessage #%d: %v", i, err)
+		}
+		if i == c.Messages/2 {
+			base, baseBytes = liveHeap(), sink.n
+		}
+	}
+	end := liveHeap()
+	written := sink.n - baseBytes
+	runtime.KeepAlive(w)
+	// between the two measurements the writer may have added one chunk index entry per chunk (a struct and a map
+	// of channel offsets), nothing per message; the number of chunks is bounded through the bytes that went out
+	// (a chunk of tiny messages compresses well, so count by uncompressed content instead)
+	chunks := uint64(0)
+	if !c.Unchunked {
+		chunks = uint64(c.Messages/2)*uint64(31+c.Payload)/uint64(c.ChunkSize) + 2
+	}
+	allowance := chunks*(1024+96*uint64(c.Channels)) + 1<<20
+	if end > base+allowance {
+		return pk.Failf("writer-grows-per-message", "Writer %+v: live heap grew by %d bytes over the second half of %d messages (%d bytes written, at most %d chunks); allowance %d", c, end-base, c.Messages, written, chunks, allowance)
+	}
+	if err := w.Close(); err != nil {
+		return pk.Failf("writer-error", "Close: %v", err)
+	}
+	cl := "indexing=on"
+	if c.SkipMI {
+		cl = "indexing=skipped"
+	}
+	st.Case(wl.Hash(c), true, 1, "writer-memory", cl, "compression="+c.Comp)
+	if st.WantSample() {
+		st.Sample(map[string]any{"case": c, "live_heap_growth": int64(end) - int64(base), "allowance": allowance})
+	}
+	return nil
+}
+
+func TestC20WriterMemory(t *testing.T) {
+	pk.Run(t, "C20w", genC20Writer, checkC20Writer)
+}
+
 func TestC20ReaderReuse(t *testing.T) {
 	pk.Run(t, "C20r", genC20Reuse, checkC20Reuse)
 }
